@@ -303,6 +303,9 @@ fn inner(c: &TimeoutCase) -> Result<CaseReport, Stop> {
                         std::thread::sleep(Duration::from_millis(1));
                     }
                     let Some(s) = got else { return Err(Stop::Inconclusive("try_accept never saw the pending connection".into())) };
+                    if !tcp_same_connection(tiny_std::unix::fd::AsRawFd::as_raw_fd(&s).value(), peer.fd()) {
+                        return Err(Stop::Inconclusive("the connection the listener handed out is not the one the case made (a foreign client on the port)".into()));
+                    }
                     (s, peer)
                 }
             };
